@@ -150,6 +150,23 @@ def apply_tamper(W, name, rng):
         sec0 = W["named"](roots[0], "%s/1/4" % base).sec()
         po.named_pubs[sec0].replace_xfp(atk.fingerprint().hex())
         outs[1]["named"][0] = {"key": [1, "chg"], "xfp": 0, "path": "chg"}
+    elif name == "change-quorum-up":
+        # the wallet's own keys under a HIGHER quorum than the inputs': not this wallet's change either
+        if m + 1 > n:
+            return None
+        nms = [W["named"](r, "%s/1/4" % base) for r in roots]
+        sc, spk = W["script_for"](nms, m + 1)
+        set_script(po, sc)
+        po.tx_out.script_pubkey = spk
+        ps.tx_obj.tx_outs[1].script_pubkey = spk
+        outs[1]["spk"]["m"] = m + 1
+    elif name == "two-spends-one-address":
+        # an honest batch that pays the same outside address twice: the sums must still hold
+        dup = TxOut(ps.tx_obj.tx_outs[0].amount + 777, ps.tx_obj.tx_outs[0].script_pubkey)
+        ps.tx_obj.tx_outs[1].amount -= dup.amount                     # keep the fee positive
+        ps.tx_obj.tx_outs.append(dup)
+        ps.psbt_outs.append(PSBTOut(dup))
+        outs.append({"spk": {"m": 1, "keys": [[0, "atk"]]}, "named": []})
     elif name == "change-quorum":
         nms = [W["named"](r, "%s/1/4" % base) for r in roots]
         sc, spk = W["script_for"](nms, m - 1)
@@ -240,7 +257,7 @@ def apply_tamper(W, name, rng):
     return outs, ok_inputs
 
 
-TAMPERS = ["none", "input-stray-witness-script", "two-from-one-cosigner", "input-derivation-path-of-another-input", "swap-spk", "swap-spk-p2pkh", "swap-spk-p2wpkh", "swap-spk-p2sh", "swap-spk-p2wsh", "swap-spk-p2tr", "second-change-first", "second-change-middle", "foreign-script", "foreign-script-named", "one-cosigner", "wrong-path", "foreign-xfp", "change-quorum", "second-change",
+TAMPERS = ["none", "change-quorum-up", "two-spends-one-address", "input-stray-witness-script", "two-from-one-cosigner", "input-derivation-path-of-another-input", "swap-spk", "swap-spk-p2pkh", "swap-spk-p2wpkh", "swap-spk-p2sh", "swap-spk-p2wsh", "swap-spk-p2tr", "second-change-first", "second-change-middle", "foreign-script", "foreign-script-named", "one-cosigner", "wrong-path", "foreign-xfp", "change-quorum", "second-change",
            "spend-as-change", "input-foreign-script", "input-wrong-derivation", "input-foreign-xfp", "input-altered-prev-tx", "input-quorum-mismatch"]
 
 
